@@ -875,8 +875,9 @@ impl IoUringSubmissionQueueEntry {
             __bindgen_anon_1: io_uring_sqe__bindgen_ty_1 { off: 0 },
             __bindgen_anon_2: io_uring_sqe__bindgen_ty_2 { addr: 0 },
             len: flags.bits(),
+            // The kernel reads the whole 32 bit word, set all of it
             __bindgen_anon_3: io_uring_sqe__bindgen_ty_3 {
-                poll_events: poll_events.bits() as u16,
+                poll32_events: u32::from(poll_events.bits() as u16),
             },
             user_data,
             __bindgen_anon_4: io_uring_sqe__bindgen_ty_4 { buf_index: 0 },
